@@ -129,6 +129,20 @@ SUITES = {
         trace=dict(module="Trace_Access", cfg_in="Trace_Access.cfg.in", workers=1, timeout=3600),
         props=["C11"],
     ),
+    "claims": dict(
+        # verified onboarding: registry x miner x power x cron.  The exhaustive model uses the driver's policy
+        # numbers (one CC sector + replica update, two allocations, every maintain / drop declaration shape incl.
+        # repeated ids and two declarations per message); thorough adds a second extension round and the
+        # pre-commit / ProveCommitSectors3 path
+        mc=[dict(module="MC_Claims", cfg=tiered("MC_Claims.cfg", "MC_Claims_thorough.cfg"),
+                 timeout=tiered(1500, 3 * 3600), workers=4)],
+        sim=dict(module="MC_Claims", cfg="Sim_Claims.cfg", num=tiered(12, 36), depth=30),
+        tour_cap=tiered(220, 3000),
+        driver="claims",
+        driver_args=lambda tier: ["--random", 40 if tier == "quick" else 1500, "--len", 80],
+        trace=dict(module="Trace_Claims", cfg_in="Trace_Claims.cfg.in", timeout=4 * 3600, split=4),
+        props=["C10"],
+    ),
 }
 
 # property -> suites whose traces carry formulas tagged with that property
@@ -152,11 +166,12 @@ PROPS = {
     "C18": dict(suites=["evm18"], title="EVM execution is total, bounded and respects read-only mode"),
     "C19": dict(suites=["evmcalls"], title="EVM contract state stays coherent across nested, re-entrant and reverted calls"),
     "C11": dict(suites=["access"], title="Privileged methods are callable only by their designated callers"),
+    "C10": dict(suites=["claims", "verif"], title="Verified claims back quality-adjusted power and obey their terms"),
 }
 
 NOT_BUILT = "check not built yet in this round (work in progress; see DESIGN.md build order)"
 NOT_APPLICABLE = {p: NOT_BUILT for p in
-                  ["C10"]}
+                  []}
 
 _MKT = ("Bounded exhaustive TLC model checking of spec/Market.tla with the REAL protocol constants (180-day minimum duration, 30-day cron interval; time jumps only between deal boundaries and scheduled cron epochs, so the state space is small and every behaviour is replayable 1:1): every interleaving of deposits, withdrawals, batch publication with invalid entries, both activation paths, settlement, sector termination and the per-epoch cron over <= 2 deals; formulas as invariants over state + event-derived ghosts and as action properties. Conformance: a transition tour of the model, TLC simulation behaviours and guided random schedules run on the real market actor with real miner actors as providers; every recorded step validated by TLC. ")
 _SEC = ("System-level conformance: guided random schedules of USER messages only (pre-commit, prove-commit, Window PoSt with skipped sets, fault / recovery declarations, terminations, extensions, compaction, withdrawals, block rewards, fault-plan injections) plus the per-epoch cron are run on the real miner, power, reward, cron and market actors under a scaled-down policy (4 deadlines x 6 epochs, 2 KiB sectors, partition size 2), miners created through the real power actor; after every message and tick the full projected state (every partition bitfield, memo, expiration queue, claim, cron queue, balance) is validated by TLC against the Layer-P formulas of spec/SectorsP.tla written from the protocol. ")
@@ -168,6 +183,7 @@ LEVEL_TEXT = {
     "C04": _SEC + "C04 formulas: SetsNest, OnePartition, PartMemos, DlMemos, EarlyDls, QueueOK, AllocCovers.",
     "C05": _SEC + "C05 formulas: CronNeverFails, NoBalanceInvariantBroken, NoPanic, CronScheduled, CronWhileFunded (known finding F2), DeadlineCurrent, QueueNotStale, NoOverdueExpiry, EarlyTermsScheduled; CronOK in the Market suite.",
     "C09": "Bounded exhaustive TLC model checking of spec/VerifReg.tla (verifier/client grants, allocation transfers with extension requests, claim batches with repeated / foreign / mismatched / expired entries in both all-or-nothing modes, expirations, removals, term extensions, DataCap removal) + conformance: transition tour, simulation behaviours and guided random schedules on the real datacap + verifreg + multisig(root) + miner actors; every step validated by TLC. Formulas: SupplyIsSum, SupplyIsMintedMinusBurnt, RegistryHoldsAllocs, AllowanceExact, MintOnlyByGrant, AllocFate, ClaimsFromAllocs, IdsFresh.",
+    "C10": "Bounded exhaustive TLC model checking of spec/Claims.tla, the composition of the verified registry (spec/VerifReg.tla) with one miner's sectors, under the driver's scaled-down policy (4 deadlines x 6 epochs, 72-epoch minimum sector life, 48-epoch end-of-life claim-drop period, claim terms of 24..4000 epochs) so that every behaviour replays 1:1: allocation transfers, non-interactive commitment of a CC sector, ProveReplicaUpdates3 / PreCommit + ProveCommitSectors3 with piece manifests naming open, stale, repeated and foreign allocation ids, ExtendSectorExpiration2 with every maintain / drop declaration shape (missing, partial, repeated, foreign and previously dropped ids; one or two declarations per message, the same sector twice), ExtendClaimTerms, RemoveExpiredClaims / RemoveExpiredAllocations, TerminateSectors, and time jumps to every epoch where something changes (first proof, deadline mutability, drop period, expiration, expiry cron, term end, allocation expiry); the C10 formulas are invariants (Backed = WeightBacked + ClaimStartsAfterActivation + ExpirationWithinTerms with one witness set of claims) and action properties (ExtendPastMaxOnlyByDrop, DroppedWeightGone, WeightChangesOnlyByDecl, ClaimTermsMonotone, ClaimRemovalOnlyExpired, AllocRemovalOnlyExpired). With the extension rule as first written (constants DupIdsAllowed / MultiDeclAllowed, spec/MC_Claims_F5.cfg, MC_Claims_F7.cfg) TLC finds the repeated-id and the twice-declared-sector counterexamples in under a minute. Conformance: a transition tour of the model, TLC simulation behaviours and guided random schedules (both onboarding paths, sectors living ~3000 epochs on the pre-commit path) run on the real datacap, verified-registry, miner, power and cron actors (miner created through the power actor, cron every epoch, the driver submits every due Window PoSt); after every call the registry (from its state AND through GetClaims), every sector's activation / expiration / power-base epoch / verified weight / partition flags and the power actor's claim are validated by TLC: Layer P = the formulas above plus WeightIsSpaceTimesDuration, GetClaimsAgrees, QAPowerFalls, RejectedIsNoop; Layer R = verdict, batch results and post-state equal the model's. The registry-only clauses are additionally decided by the VerifReg suite (ClaimTermsMonotone, ClaimRemovalOnlyExpired).",
     "C17": "spec/Words.tla + spec/EVM.tla are an executable TLA+ transcription of the Yellow Paper / EIP semantics of the arithmetic, comparison, bitwise, stack, memory, storage, transient-storage, call-data/code/return-data copying, hashing (uninterpreted), control-flow and RETURN/REVERT instructions (Words.tla is cross-checked against Python integers on 5 685 generated vectors). TLC model-checks the machine's own invariants and totality over every byte string up to a small length (MC_EVM). Conformance: generated programs (every instruction over the boundary lattice: all pairs for binary, sampled triples for ternary instructions; memory/copy/storage/jump case families; deliberately ill-formed programs; all tiny byte strings of the model's alphabets; generated multi-instruction programs with loops, jumps, memory growth, storage and calldata) are deployed through the real EAM and run in the real interpreter on the recording VM with a per-step observer; TLC re-executes every program in the specification and compares every recorded step (pc, opcode, stack content, memory size) and the final outcome class, return/revert data and contract storage (read from the KAMT and via GetStorageAt).",
     "C06": _MKT + "C06 formulas: LockedIsObligation, LockedLeqEscrow, TotalsMatch, WithdrawExact, EscrowOnlyOwnMoves.",
     "C07": _MKT + "C07 formulas: EscrowExplained (every party's escrow equals deposits - withdrawals +/- the ideal per-deal payment formula at every moment, whatever the settlement schedule), BurnExact, EndLegit.",
